@@ -30,13 +30,13 @@ EXPLANATION = (
     'equality atoms of the exit status x should_fail/console atoms) equal the documented rule, and each complete() of a protocol '
     'class delegates to the next one on every path (CFG), with the chain shape fixed per protocol.  R3b: the timeout table of '
     'SingleTestRunner.__init__ over the sign classes of its atoms, with symbolic outcomes (None / declared / product).  R3c: the '
-    'serialisation loop iterates sorted() with a key of negative priority coefficient, no path skips the append, the scheduling '
+    'serialisation loop iterates the tests parameter through a chain of copies / sorted() / in-place .sort() / reversals whose last sort has a key of negative priority coefficient (descending), no path skips the append, the scheduling '
     'fields land in their TestSerialisation slots.  R4: process_test_result has exactly one `counter += 1` arm per finished '
     'member with the documented grouping, the counters added by total_failure_count are exactly those fed by the members of the '
     'folded is_bad set, doit returns non-zero iff total_failure_count() > 0, the label->counter table of summary agrees and every '
     'positive counter is printed.  R5: test_slice returns (int(part 0), int(part 1)) under the documented guards and get_tests '
-    'selects tests[SLICE-1::NUM_SLICES].  The exit status handed from doit()/run()/run_with_args() to sys.exit is drawn from constants in 0..255, never a count.  R7: in an async function that repeats asyncio.wait/wait_for in a loop with a caller-supplied timeout variable (complete_all), that variable is re-assigned inside the loop from a clock-reading expression (necessary for the total wait to stay within the budget; the arithmetic itself is not decided).  R6: get_tests builds the selection by filtering one source at a time (no concatenation), and in the selection generator (tests_from_args) no path leads from a `yield <candidate>` to another one without advancing the single loop over the candidates.  In the predicate get_tests filters with (test_suitable) the exclude_suites of the test setup are consulted only on paths where --suite was seen empty.  R8: the default of -j is determine_worker_count([... MESON_TESTTHREADS ...]); in determine_worker_count the count is overwritten inside the loop over the variable names only on paths where the variable is known to be present; the value that sizes the semaphore is validated positive (a -j parser that only returns positive counts, or a guard / max()). All tables are extracted from a normal form (small helpers and starter closures inlined, single-definition locals and tuple unpackings propagated, walrus / conditional values / list comprehensions desugared, constant lookup tables unrolled, internal calls bound by signature); a finding is reported only when every construct on the judged path was classified.  NOT decided: asyncio interleavings beyond this await protocol; that timeouts kill (TestSubprocess._kill: which signals are sent to which process or process group on which path, e.g. an early return when the main process has already exited while its group is still alive, is runtime process semantics and a free-form escalation sequence that no clause here fixes; including that every test that can time out is started in its own session: the condition under which preexec_fn skips os.setsid() would have to be related to options.interactive through SingleTestRunner.console_mode -> TestRun.console_mode -> the constructor argument, which this pack does not follow) '
-    'process groups; --maxfail timing; the composed end-to-end value of complete() for a concrete run (only the per-method tables '
+    'selects tests[SLICE-1::NUM_SLICES].  The exit status handed from doit()/run()/run_with_args() to sys.exit is drawn from constants in 0..255, never a count.  R7: in an async function that repeats asyncio.wait/wait_for in a loop with a caller-supplied timeout variable (complete_all), that variable is re-assigned inside the loop from a clock-reading expression (necessary for the total wait to stay within the budget; the arithmetic itself is not decided).  R9: a result is set to TIMEOUT only on CFG paths that call a method from which os.killpg is reached (the killer); in the killer no normal path reaches a return before a group-wide kill primitive on the pid of the child (os.killpg(<child>.pid, ..) / taskkill /T; helper methods that always signal are followed); the preexec_fn handed to create_subprocess_exec skips os.setsid() only on paths that establish options.interactive (directly, or through the decision table of the console_mode property and the constructor argument it reads) - the one atom under which R3b shows the timeout to be None - or the child is started with start_new_session=True.  R6: get_tests builds the selection by filtering one source at a time (no concatenation), and in the selection generator (tests_from_args) no path leads from a `yield <candidate>` to another one without advancing the single loop over the candidates.  In the predicate get_tests filters with (test_suitable) the exclude_suites of the test setup are consulted only on paths where --suite was seen empty.  R8: the default of -j is determine_worker_count([... MESON_TESTTHREADS ...]); in determine_worker_count the count is overwritten inside the loop over the variable names only on paths where the variable is known to be present; the value that sizes the semaphore is validated positive (a -j parser that only returns positive counts, or a guard / max()). All tables are extracted from a normal form (small helpers and starter closures inlined, single-definition locals and tuple unpackings propagated, walrus / conditional values / list comprehensions desugared, constant lookup tables unrolled, internal calls bound by signature); a finding is reported only when every construct on the judged path was classified.  NOT decided: asyncio interleavings beyond this await protocol; which signals TestSubprocess._kill escalates through after the first group-wide one (SIGTERM -> SIGKILL -> p.kill(), the grace periods, the ProcessLookupError arm) and that the signalled processes really die (runtime process semantics); that every process a test starts stays in its '
+    'process group; --maxfail timing; the composed end-to-end value of complete() for a concrete run (only the per-method tables '
     'and their chaining); the rendered text of summary(); the partition property of --slice as such (only the offset/stride roles).')
 ASSUMPTIONS = [
     'asyncio.Semaphore(n) admits at most n holders; awaiting a future returns only after it is done',
@@ -854,6 +854,11 @@ def _testrun_arg(mod: Module, field: str) -> T.Tuple[T.Any, ast.AST, str]:
     if not ch or len(ch.split('.')) != 3 or not ch.startswith('self.'):
         raise Undecided(f'SingleTestRunner.{field}: unknown shape {short(prop)}')
     _, holder, attr = ch.split('.')
+    return _ctor_arg(mod, holder, attr)
+
+
+def _ctor_arg(mod: Module, holder: str, attr: str) -> T.Tuple[T.Any, ast.AST, str]:
+    """The expression SingleTestRunner.__init__ passes to the constructor of self.<holder> for the parameter copied to its self.<attr>."""
     init = mod.func('SingleTestRunner.__init__')
     builds = [st for st in ast.walk(init) if isinstance(st, ast.Assign) and len(st.targets) == 1 and attr_chain(st.targets[0]) == f'self.{holder}']
     if len(builds) != 1 or not isinstance(builds[0].value, ast.Call) or not isinstance(builds[0].value.func, ast.Name):
@@ -1314,22 +1319,51 @@ def _res_rows(ctx: RuleCtx, mod: Module, fn: T.Any, qn: str) -> T.List[ResRow]:
     for st in body:
         ast.fix_missing_locations(st)
     rows: T.List[ResRow] = []
+    # locals that carry the result (working copy of self.res, stored back later): `n = self.res`, `self.res = n`, `n2 = n`.
+    # Their typestate is tracked like that of self.res itself: None = the incoming member, otherwise the member assigned last.
+    carriers: T.Set[str] = set()
+    assigns = [st for st in ast.walk(ast.Module(body=body, type_ignores=[])) if isinstance(st, (ast.Assign, ast.AnnAssign)) and st.value is not None]
+    grew = True
+    while grew:
+        grew = False
+        for st in assigns:
+            tg_ = st.targets if isinstance(st, ast.Assign) else [st.target]
+            if len(tg_) != 1:
+                continue
+            t0, v0 = tg_[0], st.value
+            if isinstance(t0, ast.Name) and t0.id not in carriers and (attr_chain(v0) == RES or (isinstance(v0, ast.Name) and v0.id in carriers)):
+                carriers.add(t0.id)
+                grew = True
+            if isinstance(v0, ast.Name) and v0.id not in carriers and (attr_chain(t0) == RES or (isinstance(t0, ast.Name) and t0.id in carriers)):
+                carriers.add(v0.id)
+                grew = True
+    UNDEF = '<undefined>'
     for p in enumerate_paths(body):
         row = ResRow()
         cur: T.Optional[str] = None
+        loc: T.Dict[str, T.Optional[str]] = {}
         feasible = True
         for ev in p.events:
             if ev.kind == 'cond':
                 a, v = tables.canon(ev.node, ev.val)
                 pred = _res_pred(ctx, mod, a, RES, cls)
+                state = cur
+                if pred is None:
+                    for n_ in sorted(carriers):
+                        pred = _res_pred(ctx, mod, a, n_, cls)
+                        if pred is not None:
+                            if loc.get(n_, UNDEF) == UNDEF:
+                                raise Undecided(f'{qn}: the local {n_} is tested before it holds the result: {short(ev.node)}')
+                            state = loc[n_]
+                            break
                 if pred is not None:
-                    if cur is None:
+                    if state is None:
                         row.init.append((frozenset(pred), v))
-                    elif (cur in pred) != v:
+                    elif (state in pred) != v:
                         feasible = False
                         break
                     continue
-                if RES in chains_in(ev.node):
+                if RES in chains_in(ev.node) or (carriers & names_in(ev.node)):
                     raise Undecided(f'{qn}: unknown test of self.res: {short(ev.node)}')
                 if a in row.conds and row.conds[a] != v:
                     feasible = False
@@ -1340,12 +1374,28 @@ def _res_rows(ctx: RuleCtx, mod: Module, fn: T.Any, qn: str) -> T.List[ResRow]:
                 tgts = st.targets if isinstance(st, ast.Assign) else [st.target] if isinstance(st, (ast.AugAssign, ast.AnnAssign)) else []
                 for t in tgts:
                     ch = attr_chain(t)
-                    if ch == RES:
-                        m = _member_name(norm(st.value)) if isinstance(st, ast.Assign) else None
-                        if m is None:
+                    if ch == RES or (isinstance(t, ast.Name) and t.id in carriers):
+                        val = st.value if isinstance(st, (ast.Assign, ast.AnnAssign)) else None
+                        if isinstance(st, ast.AnnAssign) and val is None:
+                            continue    # a bare annotation binds nothing
+                        if val is not None and len(tgts) != 1:
+                            val = None
+                        m = _member_name(norm(val)) if val is not None else None
+                        if m is None and val is not None and attr_chain(val) == RES:
+                            new_state: T.Optional[str] = cur
+                        elif m is None and isinstance(val, ast.Name) and val.id in carriers:
+                            if loc.get(val.id, UNDEF) == UNDEF:
+                                raise Undecided(f'{qn}: the local {val.id} is read before it holds the result: {short(st)}')
+                            new_state = loc[val.id]
+                        elif m is None:
                             raise Undecided(f'{qn}: self.res is assigned a non-constant: {short(st)}')
-                        cur = m
-                        row.final = m
+                        else:
+                            new_state = m
+                        if ch == RES:
+                            cur = new_state
+                            row.final = new_state
+                        else:
+                            loc[t.id] = new_state   # type: ignore[union-attr]
                     elif ch and ch.startswith('self.') and isinstance(st, ast.Assign):
                         row.writes.append(f'{ch} := {norm(st.value)}')
                 for c in walk_no_nested(st):
@@ -1723,6 +1773,114 @@ def _coef(e: ast.AST, param: str) -> T.Optional[T.Tuple[float, bool]]:
     return None
 
 
+def _sort_direction(mod: Module, fn: T.Any, fq: str, call: ast.Call) -> str:
+    """Direction by priority of one `sorted(..., key=, reverse=)` / `.sort(key=, reverse=)` call: 'ascending' | 'descending'."""
+    extra = [k.arg for k in call.keywords if k.arg not in ('key', 'reverse')]
+    if extra:
+        raise Undecided(f'{fq}: unknown sort arguments {extra}')
+    key = next((k.value for k in call.keywords if k.arg == 'key'), None)
+    rev = next((k.value for k in call.keywords if k.arg == 'reverse'), None)
+    if rev is not None and not isinstance(rev, ast.Constant):
+        raise Undecided(f'{fq}: reverse= is not a constant')
+    reverse = bool(rev.value) if rev is not None else False   # type: ignore[union-attr]
+    if isinstance(key, ast.Name) and not mod.has_func(key.id):
+        # the key bound to a local first: a single definition by a lambda
+        kd = [st for st in walk_no_nested(fn) if isinstance(st, (ast.Assign, ast.AnnAssign)) and st.value is not None
+              and any(isinstance(n, ast.Name) and n.id == key.id and isinstance(n.ctx, ast.Store) for t_ in (st.targets if isinstance(st, ast.Assign) else [st.target]) for n in ast.walk(t_))]
+        nst = sum(1 for n in walk_no_nested(fn) if isinstance(n, ast.Name) and n.id == key.id and isinstance(n.ctx, (ast.Store, ast.Del)))
+        if len(kd) == 1 and nst == 1 and isinstance(kd[0].value, ast.Lambda) and kd[0] in fn.body:
+            key = kd[0].value
+    if isinstance(key, ast.Lambda) and len(key.args.args) == 1:
+        cf = _coef(key.body, key.args.args[0].arg)
+        if cf is None or not cf[1] or cf[0] == 0:
+            raise Undecided(f'{fq}: sort key is not a linear function of .priority: {short(key)}')
+        return 'descending' if (cf[0] < 0) != reverse else 'ascending'
+    if isinstance(key, ast.Name) and (mod.has_func(key.id) or any(isinstance(n, ast.FunctionDef) and n.name == key.id for n in walk_no_nested(fn))):
+        kf = mod.func(key.id) if mod.has_func(key.id) else [n for n in walk_no_nested(fn) if isinstance(n, ast.FunctionDef) and n.name == key.id][0]
+        krets = [r for r in walk_no_nested(kf) if isinstance(r, ast.Return) and r.value is not None]
+        if len(kf.args.args) != 1 or len(krets) != 1:
+            raise Undecided(f'{fq}: sort key function {key.id} is not a single expression of its argument')
+        cf = _coef(_inline_locals(kf, krets[0].value), kf.args.args[0].arg)
+        if cf is None or not cf[1] or cf[0] == 0:
+            raise Undecided(f'{fq}: sort key {key.id} is not a linear function of .priority')
+        return 'descending' if (cf[0] < 0) != reverse else 'ascending'
+    if isinstance(key, ast.Call) and (call_name(key) or '').split('.')[-1] == 'attrgetter' and len(key.args) == 1 and isinstance(key.args[0], ast.Constant):
+        if key.args[0].value != 'priority':
+            raise Undecided(f'{fq}: sorted by {key.args[0].value!r}')
+        return 'descending' if reverse else 'ascending'
+    if key is None:
+        raise Undecided(f'{fq}: sort without key')
+    raise Undecided(f'{fq}: unknown sort key {short(key)}')
+
+
+_ORDER_NEUTRAL = ('len', 'list', 'tuple', 'sorted', 'reversed', 'iter', 'enumerate', 'bool', 'any', 'all', 'set', 'frozenset', 'isinstance')
+
+
+def _order_ops(mod: Module, fn: T.Any, fq: str, e: ast.AST, p0: str, loop: ast.For, depth: int = 0) -> T.List[T.Tuple[str, ...]]:
+    """The order operations applied to the parameter p0 before it is iterated (see r3c); anything else -> Undecided."""
+    if depth > 6:
+        raise Undecided(f'{fq}: iteration source nested too deeply')
+    if isinstance(e, ast.Name):
+        # closed world: the list is not handed to a callee that could reorder it in place (random.shuffle(x), helper(x))
+        for c in walk_no_nested(fn):
+            if isinstance(c, ast.Call) and call_name(c) not in _ORDER_NEUTRAL and any(
+                    isinstance(a_, ast.Name) and a_.id == e.id for a in [*c.args, *(k.value for k in c.keywords)] for a_ in [a.value if isinstance(a, ast.Starred) else a]):
+                raise Undecided(f'{fq}: the iterated list {e.id} is handed to {short(c)}, which this rule does not follow')
+    if isinstance(e, ast.Name) and e.id == p0:
+        if any(isinstance(n, ast.Name) and n.id == p0 and isinstance(n.ctx, (ast.Store, ast.Del)) for n in walk_no_nested(fn)) or any(
+                isinstance(c, ast.Call) and isinstance(c.func, ast.Attribute) and isinstance(c.func.value, ast.Name) and c.func.value.id == p0
+                and c.func.attr in ('sort', 'reverse') for c in walk_no_nested(fn)):
+            raise Undecided(f'{fq}: the parameter {p0} is rebound or reordered in place')
+        return []
+    if isinstance(e, ast.Name):
+        # a local: one definition at the top level of the function before the loop, then only in-place `x.sort(...)` / `x.reverse()`
+        # statements (top level, between the definition and the loop); any other method call on it is not understood
+        defs = [st for st in walk_no_nested(fn) if isinstance(st, (ast.Assign, ast.AnnAssign)) and st.value is not None
+                and any(isinstance(n, ast.Name) and n.id == e.id and isinstance(n.ctx, ast.Store) for t_ in (st.targets if isinstance(st, ast.Assign) else [st.target]) for n in ast.walk(t_))]
+        nst = sum(1 for n in walk_no_nested(fn) if isinstance(n, ast.Name) and n.id == e.id and isinstance(n.ctx, (ast.Store, ast.Del)))
+        if len(defs) != 1 or nst != 1 or defs[0] not in fn.body or loop not in fn.body or fn.body.index(defs[0]) > fn.body.index(loop):
+            raise Undecided(f'{fq}: unknown iteration {short(e)}')
+        tg = defs[0].targets[0] if isinstance(defs[0], ast.Assign) and len(defs[0].targets) == 1 else defs[0].target if isinstance(defs[0], ast.AnnAssign) else None
+        if not isinstance(tg, ast.Name):
+            raise Undecided(f'{fq}: unknown iteration {short(e)}')
+        ops = _order_ops(mod, fn, fq, defs[0].value, p0, loop, depth + 1)
+        muts = [c for c in walk_no_nested(fn) if isinstance(c, ast.Call) and isinstance(c.func, ast.Attribute) and isinstance(c.func.value, ast.Name) and c.func.value.id == e.id]
+        inplace: T.Dict[int, ast.Call] = {}
+        for st in fn.body[fn.body.index(defs[0]) + 1:fn.body.index(loop)]:
+            if isinstance(st, ast.Expr) and isinstance(st.value, ast.Call) and st.value in muts and st.value.func.attr in ('sort', 'reverse'):   # type: ignore[attr-defined]
+                inplace[id(st.value)] = st.value
+                c = st.value
+                if c.func.attr == 'reverse':   # type: ignore[attr-defined]
+                    if c.args or c.keywords:
+                        raise Undecided(f'{fq}: unknown call {short(c)}')
+                    ops.append(('reverse',))
+                else:
+                    if c.args:
+                        raise Undecided(f'{fq}: unknown call {short(c)}')
+                    ops.append(('sort', _sort_direction(mod, fn, fq, c)))
+        rest = [c for c in muts if id(c) not in inplace and c.func.attr not in ('copy', 'index', 'count', '__len__')]   # type: ignore[attr-defined]
+        if rest:
+            raise Undecided(f'{fq}: the iterated list {e.id} is changed by {short(rest[0])}, which this rule does not read')
+        return ops
+    if isinstance(e, ast.Call) and call_name(e) == 'sorted' and len(e.args) == 1:
+        return _order_ops(mod, fn, fq, e.args[0], p0, loop, depth + 1) + [('sort', _sort_direction(mod, fn, fq, e))]
+    if isinstance(e, ast.Call) and call_name(e) in ('list', 'tuple', 'iter') and len(e.args) == 1 and not e.keywords:
+        return _order_ops(mod, fn, fq, e.args[0], p0, loop, depth + 1)
+    if isinstance(e, ast.Call) and call_name(e) == 'reversed' and len(e.args) == 1 and not e.keywords:
+        return _order_ops(mod, fn, fq, e.args[0], p0, loop, depth + 1) + [('reverse',)]
+    if isinstance(e, ast.Call) and isinstance(e.func, ast.Attribute) and e.func.attr == 'copy' and not e.args and not e.keywords:
+        return _order_ops(mod, fn, fq, e.func.value, p0, loop, depth + 1)
+    if isinstance(e, (ast.List, ast.Tuple)) and len(e.elts) == 1 and isinstance(e.elts[0], ast.Starred):
+        return _order_ops(mod, fn, fq, e.elts[0].value, p0, loop, depth + 1)
+    if isinstance(e, ast.Subscript) and isinstance(e.slice, ast.Slice) and e.slice.lower is None and e.slice.upper is None:
+        st_ = e.slice.step
+        if st_ is None:
+            return _order_ops(mod, fn, fq, e.value, p0, loop, depth + 1)
+        if isinstance(st_, ast.UnaryOp) and isinstance(st_.op, ast.USub) and isinstance(st_.operand, ast.Constant) and st_.operand.value == 1:
+            return _order_ops(mod, fn, fq, e.value, p0, loop, depth + 1) + [('reverse',)]
+    raise Undecided(f'{fq}: unknown iteration {short(e)}')
+
+
 FIELDS = ('is_parallel', 'expected_fail', 'expected_exitcode', 'timeout', 'protocol', 'priority')
 
 
@@ -1763,45 +1921,16 @@ def r3c(ctx: RuleCtx) -> None:
     loop = loops[0]
     tv = loop.target.id
     it_ = loop.iter
-    if isinstance(it_, ast.Name) and it_.id != p0:
-        defs = [st for st in walk_no_nested(fn) if isinstance(st, (ast.Assign, ast.AnnAssign)) and any(isinstance(n, ast.Name) and n.id == it_.id and isinstance(n.ctx, ast.Store) for n in ast.walk(st))]
-        nst = sum(1 for n in walk_no_nested(fn) if isinstance(n, ast.Name) and n.id == it_.id and isinstance(n.ctx, (ast.Store, ast.Del)))
-        muts = [c for c in walk_no_nested(fn) if isinstance(c, ast.Call) and isinstance(c.func, ast.Attribute) and isinstance(c.func.value, ast.Name) and c.func.value.id == it_.id]
-        if len(defs) == 1 and nst == 1 and not muts and defs[0] in fn.body and defs[0].value is not None:
-            it_ = defs[0].value   # the list iterated was bound to a local first
-    order: T.Optional[str] = None
-    if isinstance(it_, ast.Call) and call_name(it_) == 'sorted' and len(it_.args) == 1 and isinstance(it_.args[0], ast.Name) and it_.args[0].id == p0:
-        key = next((k.value for k in it_.keywords if k.arg == 'key'), None)
-        rev = next((k.value for k in it_.keywords if k.arg == 'reverse'), None)
-        if rev is not None and not isinstance(rev, ast.Constant):
-            raise Undecided(f'{fq}: reverse= is not a constant')
-        reverse = bool(rev.value) if rev is not None else False   # type: ignore[union-attr]
-        if isinstance(key, ast.Lambda) and len(key.args.args) == 1:
-            cf = _coef(key.body, key.args.args[0].arg)
-            if cf is None or not cf[1] or cf[0] == 0:
-                raise Undecided(f'{fq}: sort key is not a linear function of .priority: {short(key)}')
-            order = 'descending' if (cf[0] < 0) != reverse else 'ascending'
-        elif isinstance(key, ast.Name) and (mod.has_func(key.id) or any(isinstance(n, ast.FunctionDef) and n.name == key.id for n in walk_no_nested(fn))):
-            kf = mod.func(key.id) if mod.has_func(key.id) else [n for n in walk_no_nested(fn) if isinstance(n, ast.FunctionDef) and n.name == key.id][0]
-            krets = [r for r in walk_no_nested(kf) if isinstance(r, ast.Return) and r.value is not None]
-            if len(kf.args.args) != 1 or len(krets) != 1:
-                raise Undecided(f'{fq}: sort key function {key.id} is not a single expression of its argument')
-            cf = _coef(_inline_locals(kf, krets[0].value), kf.args.args[0].arg)
-            if cf is None or not cf[1] or cf[0] == 0:
-                raise Undecided(f'{fq}: sort key {key.id} is not a linear function of .priority')
-            order = 'descending' if (cf[0] < 0) != reverse else 'ascending'
-        elif isinstance(key, ast.Call) and (call_name(key) or '').split('.')[-1] == 'attrgetter' and len(key.args) == 1 and isinstance(key.args[0], ast.Constant):
-            if key.args[0].value != 'priority':
-                raise Undecided(f'{fq}: sorted by {key.args[0].value!r}')
-            order = 'descending' if reverse else 'ascending'
-        elif key is None:
-            raise Undecided(f'{fq}: sorted() without key')
-        else:
-            raise Undecided(f'{fq}: unknown sort key {short(key)}')
-    elif isinstance(it_, ast.Name) and it_.id == p0:
-        order = 'unsorted'
-    else:
-        raise Undecided(f'{fq}: unknown iteration {short(it_)}')
+    # normal form of the iterated expression: the parameter followed by a chain of order operations (copies dropped):
+    # sorted(E, key=, reverse=) / E.sort(key=, reverse=) statements on a local copy -> ('sort', direction);
+    # reversed(E) / E[::-1] / E.reverse() -> ('reverse',).  The last sort decides the order by priority, later reversals flip it.
+    ops = _order_ops(mod, fn, fq, it_, p0, loop)
+    order = 'unsorted'
+    for op in ops:
+        if op[0] == 'sort':
+            order = op[1]
+        elif order != 'unsorted':
+            order = 'ascending' if order == 'descending' else 'descending'
     ctx.require(order == 'descending', 'tests are serialised in descending priority', mod, fq, 'iteration order of the serialisation loop',
                 f'the serialisation loop iterates {short(it_)}: order by priority is {order}; documented: higher priority starts first', it_)
     cfg = CFG(fn)
@@ -2858,6 +2987,276 @@ def r7(ctx: RuleCtx) -> None:
         ctx.ok('no asyncio.wait/wait_for with a caller-supplied budget is repeated in a loop (nothing to recompute)')
 
 
+# ---------------------------------------------------------------------------
+# R9: a timed-out test is terminated as a process group
+# ---------------------------------------------------------------------------
+
+def _console_table(ctx: RuleCtx, mod: Module, roles: T.Dict[str, str]) -> T.Dict[str, T.Set[bool]]:
+    """ConsoleUser member -> the truth values of options.interactive under which SingleTestRunner.console_mode can be that member
+    (decision table of the console_mode property of the run object; the constructor argument is followed by signature)."""
+    qs = sorted(q for q in mod.funcs() if q.endswith('.console_mode'))
+    prop = mod.func('SingleTestRunner.console_mode')
+    rets = [n for n in walk_no_nested(prop) if isinstance(n, ast.Return)]
+    ch = attr_chain(rets[0].value) if len(rets) == 1 and rets[0].value is not None else None
+    if 'property' not in decorator_names(prop) or not ch or len(ch.split('.')) != 3 or not ch.startswith('self.'):
+        raise Undecided('SingleTestRunner.console_mode: unknown shape')
+    _, holder, attr = ch.split('.')
+    init = mod.func('SingleTestRunner.__init__')
+    builds = [st for st in ast.walk(init) if isinstance(st, ast.Assign) and len(st.targets) == 1 and attr_chain(st.targets[0]) == f'self.{holder}']
+    if len(builds) != 1 or not isinstance(builds[0].value, ast.Call) or not isinstance(builds[0].value.func, ast.Name):
+        raise Undecided(f'SingleTestRunner.__init__: self.{holder} is not built by one constructor call')
+    cls = builds[0].value.func.id
+    if qs != sorted(['SingleTestRunner.console_mode', f'{cls}.{attr}']):
+        raise Undecided(f'console_mode is defined in {qs}; this rule reads SingleTestRunner.console_mode -> {cls}.{attr} only')
+    g = mod.func(f'{cls}.{attr}')
+    if 'property' not in decorator_names(g):
+        raise Undecided(f'{cls}.{attr} is not a property')
+    out: T.Dict[str, T.Set[bool]] = {}
+    follows: T.Dict[str, bool] = {}
+
+    def is_interactive(chain: str) -> bool:
+        if chain not in follows:
+            follows[chain] = False
+            if chain.startswith('self.') and chain.count('.') == 1:
+                try:
+                    i2, e, _ = _ctor_arg(mod, holder, chain.split('.')[1])
+                    follows[chain] = _role_chain(norm(_inline_locals(i2, e)), roles) == 'options.interactive'
+                except Undecided:
+                    pass
+        return follows[chain]
+    for p_ in enumerate_paths(_split_conditional_values(_propagated(g)).body):
+        if p_.outcome == 'raise':
+            continue
+        m = _member_name(norm(p_.value), 'ConsoleUser') if p_.outcome == 'return' and p_.value is not None else None
+        if m is None:
+            raise Undecided(f'{cls}.{attr}: a path does not return a member of ConsoleUser')
+        vals: T.Set[bool] = {False, True}
+        for ev in p_.events:
+            if ev.kind == 'cond':
+                a, v = tables.canon(ev.node, ev.val)
+                if a.kind == 'truth' and is_interactive(a.args[0]):
+                    vals &= {v}
+        out.setdefault(m, set()).update(vals)
+    return out
+
+
+def _group_kill(fn: T.Any, c: ast.Call, q: str) -> bool:
+    """Is `c` a kill primitive that reaches the whole process tree of the child (os.killpg(<child>.pid, sig), taskkill /T)?"""
+    if call_name(c) == 'os.killpg' and c.args:
+        tgt = norm(_inline_locals(fn, c.args[0]))
+        if not tgt.endswith('.pid') or not tgt.startswith('self.'):
+            raise Undecided(f'{q}: os.killpg is applied to {tgt}, not to the pid of the child process')
+        return True
+    if (call_name(c) or '').split('.')[-1] in ('run', 'call', 'check_call', 'Popen') and c.args and isinstance(c.args[0], (ast.List, ast.Tuple)):
+        words = [e.value for e in c.args[0].elts if isinstance(e, ast.Constant) and isinstance(e.value, str)]
+        return bool(words) and words[0].lower() == 'taskkill' and '/T' in [w.upper() for w in words]
+    return False
+
+
+def _deferred_kill_loops(f: T.Any, q: str) -> T.Dict[int, T.List[ast.Call]]:
+    """Normal form A4 (fixed sequence of calls <-> loop over a table of deferred calls): `for call, ... in TABLE: call()` where every
+    definition of the local TABLE is a non-empty list display (later only appended to) whose FIRST entry defers a group-wide kill
+    (`partial(os.killpg, <child>.pid, sig)`, `lambda: os.killpg(...)`, `partial(subprocess.run, ['taskkill', .., '/T', ..])`).
+    Returns id(loop) -> the calls of the loop variable in its body."""
+    out: T.Dict[int, T.List[ast.Call]] = {}
+    for loop in [n for n in walk_no_nested(f) if isinstance(n, ast.For)]:
+        if not isinstance(loop.iter, ast.Name):
+            continue
+        tnames = [loop.target.id] if isinstance(loop.target, ast.Name) else [e.id if isinstance(e, ast.Name) else '' for e in loop.target.elts] if isinstance(loop.target, ast.Tuple) else []
+        calls = [c for st in loop.body for c in ast.walk(st) if isinstance(c, ast.Call) and isinstance(c.func, ast.Name) and c.func.id in tnames and not c.args and not c.keywords]
+        if len({c.func.id for c in calls}) != 1:   # type: ignore[attr-defined]
+            continue
+        idx = tnames.index(calls[0].func.id)   # type: ignore[attr-defined]
+        lname = loop.iter.id
+        defs = [st for st in walk_no_nested(f) if isinstance(st, (ast.Assign, ast.AnnAssign)) and st.value is not None
+                and any(isinstance(t, ast.Name) and t.id == lname for t in (st.targets if isinstance(st, ast.Assign) else [st.target]))]
+        other_stores = [n for n in walk_no_nested(f) if isinstance(n, ast.Name) and n.id == lname and isinstance(n.ctx, (ast.Store, ast.Del))]
+        bare = [st for st in walk_no_nested(f) if isinstance(st, ast.AnnAssign) and st.value is None and isinstance(st.target, ast.Name) and st.target.id == lname]
+        muts = [c for c in walk_no_nested(f) if isinstance(c, ast.Call) and isinstance(c.func, ast.Attribute) and isinstance(c.func.value, ast.Name) and c.func.value.id == lname]
+        if not defs or len(other_stores) != len(defs) + len(bare) or any(c.func.attr not in ('append', 'extend') for c in muts):   # type: ignore[attr-defined]
+            raise Undecided(f'{q}: the table {lname} of deferred calls is built in a way this rule does not read')
+        good = True
+        for d in defs:
+            v = d.value
+            if not isinstance(v, ast.List) or not v.elts or isinstance(v.elts[0], ast.Starred):
+                raise Undecided(f'{q}: the table {lname} of deferred calls is not a non-empty list display: {short(d)}')
+            e0: ast.AST = v.elts[0]
+            if isinstance(loop.target, ast.Tuple):
+                if not isinstance(e0, ast.Tuple) or len(e0.elts) != len(tnames):
+                    raise Undecided(f'{q}: first entry of {lname} is not a {len(tnames)}-tuple: {short(e0)}')
+                e0 = e0.elts[idx]
+            if isinstance(e0, ast.Call) and (call_name(e0) or '').split('.')[-1] == 'partial' and e0.args and not e0.keywords:
+                good = good and _group_kill(f, ast.Call(func=e0.args[0], args=list(e0.args[1:]), keywords=[]), q)
+            elif isinstance(e0, ast.Lambda) and not e0.args.args and isinstance(e0.body, ast.Call):
+                good = good and _group_kill(f, e0.body, q)
+            elif attr_chain(e0) is not None and attr_chain(e0) not in ('os.killpg',):
+                good = False     # a bound method such as p.kill / p.terminate: the leader only
+            else:
+                raise Undecided(f'{q}: first entry of {lname} is a deferred call this rule does not read: {short(e0)}')
+        if good:
+            out[id(loop)] = calls
+    return out
+
+
+def r9(ctx: RuleCtx) -> None:
+    mod = ctx.repo.module(MTEST)
+    direct = {q for q, f in mod.funcs().items() if q.count('.') == 1 and any(isinstance(c, ast.Attribute) and attr_chain(c) == 'os.killpg' for c in walk_no_nested(f))}   # called or deferred
+    if not direct:
+        raise Undecided('no method signals a process group (os.killpg): the termination of a timed-out test is implemented in a way this rule does not read')
+    ctx.floor('functions that signal the process group of a test', len(direct), 1)
+
+    def callee(q: str, c: ast.Call) -> T.Optional[str]:
+        """`self.h(...)` inside the method q -> the qualified name of h (through the MRO of the class of q)."""
+        if isinstance(c.func, ast.Attribute) and isinstance(c.func.value, ast.Name) and c.func.value.id == 'self' and mod.has_cls(q.split('.')[0]):
+            r_ = ctx.repo.find_method(mod, mod.cls(q.split('.')[0]), c.func.attr)
+            if r_ is not None and r_[0] is mod:
+                return f'{r_[1].name}.{c.func.attr}'
+        return None
+
+    def reaches(q: str, depth: int = 0) -> bool:
+        if q in direct:
+            return True
+        return depth < 3 and any(isinstance(c, ast.Call) and (callee(q, c) or q) != q and reaches(T.cast(str, callee(q, c)), depth + 1) for c in walk_no_nested(mod.func(q)))
+
+    def always_signals(q: str, depth: int = 0) -> bool:
+        """No normal path from the entry of q to a return avoids every group-wide kill (helpers that always signal count as one)."""
+        f = mod.func(q)
+        cfg = CFG(f)
+        table_loops = _deferred_kill_loops(f, q)    # loops over a non-empty table of deferred calls whose first entry is a group-wide kill
+        first_calls = {id(c) for calls_ in table_loops.values() for c in calls_}
+        kills = cfg.nodes_with_call(lambda c: id(c) in first_calls or _group_kill(f, c, q)
+                                    or (depth < 3 and (callee(q, c) or q) != q and always_signals(T.cast(str, callee(q, c)), depth + 1)))
+        # before the first entry was called the table cannot be exhausted: the `done` edge of such a loop is not taken on a path that avoids the call
+        ok_edge = lambda a, b, lab: lab != 'exc' and not (lab == 'done' and a.kind == 'iter' and id(a.ast) in table_loops)   # noqa: E731
+        return cfg.exit_return.id not in cfg.reachable([cfg.entry], kills, edge_ok=ok_edge)
+    all_calls = [c for c in ast.walk(mod.tree) if isinstance(c, ast.Call)]
+
+    def timeout_params(q: str, f: T.Any) -> T.Set[str]:
+        """Parameters of the method q that receive TestResult.TIMEOUT at some internal call site (a marking helper shared by several results)."""
+        params = [a.arg for a in f.args.posonlyargs + f.args.args + f.args.kwonlyargs if a.arg not in ('self', 'cls')]
+        if q.count('.') != 1 or any(isinstance(n, ast.Name) and n.id in params and isinstance(n.ctx, ast.Store) for n in walk_no_nested(f)):
+            return set()
+        out: T.Set[str] = set()
+        for c in all_calls:
+            if isinstance(c.func, ast.Attribute) and c.func.attr == f.name:
+                bound = _positional(c, f)
+                for i, a in enumerate(bound or []):
+                    if _member_name(norm(a)) == 'TIMEOUT':
+                        out.add(params[i])
+        return out
+    # (b) a result is set to TIMEOUT only on paths that called a killer (a method from which os.killpg is reached)
+    sites = 0
+    top: T.Set[str] = set()
+    for q, f in sorted(mod.funcs().items()):
+        marks = [st for st in walk_no_nested(f) if isinstance(st, ast.Assign) and any((attr_chain(t) or '').endswith('.res') for t in st.targets)
+                 and (_member_name(norm(st.value)) == 'TIMEOUT' or (isinstance(st.value, ast.Name) and st.value.id in timeout_params(q, f)))]
+        if not marks:
+            continue
+        cfg = CFG(f)
+        called: T.Set[str] = set()
+
+        def is_kill(c: ast.Call) -> bool:
+            k = callee(q, c)
+            if k is None and isinstance(c.func, ast.Attribute):   # another receiver: resolved by a method name that is unique in the module
+                cands = [q2 for q2 in mod.funcs() if q2.count('.') == 1 and q2.split('.')[1] == c.func.attr]
+                k = cands[0] if len(cands) == 1 else None
+            if k is not None and k != q and reaches(k):
+                called.add(k)
+                return True
+            return False
+        ks = cfg.nodes_with_call(is_kill)
+        top |= called
+        for st in marks:
+            sites += 1
+            bad = [n for n in cfg.stmt_nodes(st) if cfg.can_reach(cfg.entry, n, avoid=ks) and cfg.can_reach(n, cfg.exit_return, avoid=ks)]
+            ctx.require(not bad, f'{q}: a run is marked TIMEOUT only on paths that call a method that kills the test ({sorted(called)})', mod, q, 'TIMEOUT reported without killing the test',
+                        f'{q} sets the result to TIMEOUT on a path that calls no method from which os.killpg is reached: the test is reported as timed out but keeps running', st)
+    if sites == 0:
+        raise Undecided('no function assigns TestResult.TIMEOUT to a .res attribute; the timeout report is written in a way this rule does not read')
+    # (a) the killer: no normal return before a signal was sent to the whole process group / tree of the child
+    for q in sorted(top):
+        ctx.require(always_signals(q), f'{q}: every normal return has signalled the process group (or process tree) of the child first', mod, q,
+                    'return before the process group of the child was signalled',
+                    f'{q} can return normally without having sent any signal to the process group of the test (os.killpg(<child>.pid, ...) / taskkill /T): the processes the '
+                    'timed-out test started keep running next to later tests although the run is reported TIMEOUT', mod.func(q))
+    killers = sorted(top) or sorted(direct)
+    # (c) the child is made the leader of its own session (so that its pid names its process group) whenever a timeout can be armed:
+    #     the only skip allowed is under options.interactive, where R3b shows the timeout to be None
+    roles = _init_roles(mod, 'SingleTestRunner')
+    spawns = [(q, f, c) for q, f in sorted(mod.funcs().items()) for c in walk_no_nested(f) if isinstance(c, ast.Call) and (call_name(c) or '').endswith('create_subprocess_exec')
+              and q.startswith('SingleTestRunner.')]
+    if not spawns:
+        raise Undecided('SingleTestRunner does not start the test through asyncio.create_subprocess_exec')
+    for q, f, c in spawns:
+        sns, pg, pre = kwarg(c, 'start_new_session'), kwarg(c, 'process_group'), kwarg(c, 'preexec_fn')
+        if (isinstance(sns, ast.Constant) and sns.value is True) or (isinstance(pg, ast.Constant) and pg.value == 0 and pg.value is not False):
+            ctx.ok(f'{q}: the child is always started in its own session / process group')
+            continue
+        if sns is not None or pg is not None or any(k.arg is None for k in c.keywords):
+            raise Undecided(f'{q}: the session of the child is chosen by arguments this rule does not read')
+        if isinstance(pre, ast.IfExp):   # `fn if <posix> else None`: the platform choice is not the subject
+            alts = [x for x in (pre.body, pre.orelse) if not (isinstance(x, ast.Constant) and x.value is None)]
+            pre = alts[0] if len(alts) == 1 else pre
+        pf = None
+        if isinstance(pre, ast.Name):
+            ds = [n for n in walk_no_nested(f) if isinstance(n, ast.FunctionDef) and n.name == pre.id]
+            pf = ds[0] if len(ds) == 1 else None
+        elif pre is not None:
+            pf = _self_call_method(ctx, mod, 'SingleTestRunner', ast.Call(func=pre, args=[], keywords=[])) if isinstance(pre, ast.Attribute) else None
+        if pre is None:
+            ctx.violation(mod, q, 'child started without a session of its own', f'{q}: {short(c, 60)} neither passes a preexec_fn that calls os.setsid() nor start_new_session=True, '
+                          f'but {killers} signals the group named by the pid of the child: a timed-out test is not terminated', c)
+            continue
+        if pf is None:
+            raise Undecided(f'{q}: preexec_fn={short(pre)} is not a local function or method this rule can read')
+        table: T.Optional[T.Dict[str, T.Set[bool]]] = None
+        members = _enum_names(mod, 'ConsoleUser')
+        bad_paths: T.List[str] = []
+        pf_n = _propagated(pf)
+        if pf in list(walk_no_nested(f)):
+            # a closure: single-definition locals of the enclosing function that it captures are read as their defining expression
+            own = {n.id for n in ast.walk(pf) if isinstance(n, ast.Name) and isinstance(n.ctx, ast.Store)} | {a.arg for a in pf.args.args + pf.args.kwonlyargs}
+            cap = tables._Subst({k: v for k, v in _single_defs(f).items() if k not in own})
+            pf_n.body = [cap.visit(st) for st in pf_n.body]
+            ast.fix_missing_locations(pf_n)
+        for p_ in enumerate_paths(_split_conditional_values(pf_n).body):
+            if p_.outcome == 'raise' or any(call_name(x) == 'os.setsid' for x in p_.calls()):
+                continue
+            inter: T.Optional[bool] = None
+            allowed = set(members)
+            unknown: T.List[str] = []
+            for ev in p_.events:
+                if ev.kind != 'cond':
+                    continue
+                a, v = tables.canon(ev.node, ev.val)
+                if a.kind == 'truth' and _role_chain(a.args[0], roles) == 'options.interactive':
+                    inter = v if inter is None or inter == v else inter
+                elif a.kind in ('is', 'cmp') and 'self.console_mode' in a.args and (a.kind == 'is' or a.args[0] == 'eq'):
+                    other = [x for x in (a.args if a.kind == 'is' else a.args[1:]) if x != 'self.console_mode']
+                    m = _member_name(other[0], 'ConsoleUser') if len(other) == 1 else None
+                    if m is None or m not in members:
+                        unknown.append(repr(a))
+                    else:
+                        allowed &= ({m} if v else set(members) - {m})
+                else:
+                    unknown.append(repr(a))
+            if inter is True:
+                continue
+            if allowed != set(members):
+                table = table if table is not None else _console_table(ctx, mod, roles)
+                if not set(table) <= set(members):
+                    raise Undecided('console_mode returns members outside ConsoleUser')
+                if not any(False in table.get(m, set()) for m in allowed):
+                    continue   # these console modes occur only under options.interactive
+            if unknown:
+                raise Undecided(f'{q}: {pf.name} skips os.setsid() under {unknown[0]}, which this rule cannot relate to options.interactive')
+            bad_paths.append(p_.describe())
+        ctx.require(not bad_paths, f'{q}: {pf.name} skips os.setsid() only under options.interactive (where no timeout is armed)', mod, q,
+                    'os.setsid() skipped for a test that can time out',
+                    f'{pf.name} (preexec_fn of the test process) does not call os.setsid() on the path [{bad_paths[0] if bad_paths else ""}], which does not imply options.interactive: '
+                    f'a test with an armed timeout is not the leader of a process group, so os.killpg(<child>.pid) in {killers} cannot terminate it', pf)
+
+
 RULES = [
     Rule('C12.R1', 'serial isolation: barriers around a non-parallel test, one scheduling per iteration, final barrier', r1),
     Rule('C12.R2', 'job bound: run() under the num_processes semaphore, cancellation flag, is_parallel implication', r2),
@@ -2869,4 +3268,5 @@ RULES = [
     Rule('C12.R8', 'job request: MESON_TESTTHREADS default, absent variables never override, job count validated positive', r8),
     Rule('C12.R7', 'a timeout budget re-used in a loop is recomputed from the clock (complete_all)', r7),
     Rule('C12.R6', 'selection: each candidate at most once; --suite decides before the setup exclusions', r6),
+    Rule('C12.R9', 'a timed-out test is terminated: kill on every TIMEOUT path, group-wide signal before any return, own session unless interactive', r9),
 ]
